@@ -165,40 +165,79 @@ def check_exclude_before_destroy(ctx, cfg):
                 ctx.ob(rule, "%s#drop_in_place#%d" % (b["key"], i), ok, det, at=c.at, cfg=cfg)
                 ctx.sample({"rule": rule, "fn": b["key"], "cfg": cfg, "detail": det})
                 n += 1
-            # C05.Y: an element read out of the owner's storage (a bitwise duplicate) must already be excluded from the owner's claimed range
-            # at every later call that can unwind - otherwise the unwinding drop of the duplicate and the owner's Drop release it twice
-            cl_ = Classifier(db)
-            sb = storage_base(tail, info)
-            a_y = ctx.analysis_inl(cfg, b["key"], split=True)  # tree-shaped where loop-free: "read before" is dominance on each path
-            reads = [c for c in a_y.calls if c.fn in ("core::ptr::read", "core::ptr::read_unaligned") and c.args[0][0] == "P" and c.args[0][1] == sb]
-            if reads:
-                foreign = [c for c in a_y.calls if cl_.classify(c, b) == "foreign" and not getattr(c, "no_effects", False)]
-                verdicts = {}
-                for r_ in reads:
-                    off = r_.args[0][2]
-                    bad = []
-                    for f_ in foreign:
-                        if f_ is r_ or not (a_y.dominates(r_.bb, f_.bb) and f_.bb != r_.bb):
-                            continue
-                        fld = owner_range(a_y, db, st["def"], info, f_.mem, ("arg", 1))
-                        lo, hi = DROP_SPEC[tail](fld, N)
-                        if lo is None or hi is None:
-                            bad.append("%s (claimed range unknown)" % f_.fn.split("::")[-1])
-                            continue
-                        pf = a_y.poly_facts(f_.facts)
-                        out_ = prove((">=", lo * S - off - S), pf) or prove((">=", off - hi * S), pf)
-                        if not out_:
-                            bad.append("%s with the owner still claiming [%r, %r)" % (f_.fn.split("::")[-1], lo, hi))
-                    site = (r_.at, a_y.blocks[r_.bb].get("split_of", r_.bb))
-                    prev = verdicts.get(site, (True, [], off, r_.at))
-                    verdicts[site] = (prev[0] and not bad, prev[1] + bad, off, r_.at)
-                for j, (site, (ok_, bad, off, at_)) in enumerate(sorted(verdicts.items(), key=lambda kv: repr(kv[0]))):
-                    ctx.ob("C05.Y", "%s#read#%d" % (b["key"], j), ok_,
-                           ("the element read out at byte %r is excluded from the owner's claimed range before every later call that can unwind" % (off,)) if ok_ else
-                           ("the element read out at byte %r is still claimed by the owner when a later call can unwind (dropped twice on unwind): %s" % (off, "; ".join(sorted(set(bad))))), at=at_, cfg=cfg)
         elif by_value and dips:
             for i, c in enumerate(dips):
                 ctx.ob(rule, "%s#drop_in_place#%d" % (b["key"], i), UNKNOWN, "drop_in_place inside a by-value method: not a recognised idiom", at=c.at, cfg=cfg, frozen=False)
+    return n
+
+
+def check_duplicate_window(ctx, cfg, rule="C05.Y"):
+    """An element read out of a tracked owner's storage (a bitwise duplicate) must already be excluded from the owner's claimed range at every
+    later call that can unwind while the owner is live - otherwise the unwinding drop of the duplicate and the owner's Drop release it twice.
+    Applies to every method of a tracked owner, with a `&mut self` receiver (the owner outlives the call) or a by-value one (the owner is a
+    local that the unwind path drops); private helpers are judged expanded in their callers; element-moving closures are C04.P's subject."""
+    from ..ownership import unwind_drops
+    db = ctx.db(cfg)
+    owners = owner_adts(db)
+    cl_ = Classifier(db)
+    n = 0
+    for b in db.bodies:
+        if b["kind"] != "AssocFn" or "impl_self" not in b or b.get("impl_trait") == "core::ops::Drop":
+            continue
+        st = b["impl_self"]
+        if st.get("k") != "adt" or st["def"] not in owners or not (b.get("vis") or {}).get("exported", True):
+            continue
+        sig = b.get("sig")
+        if not sig or not sig["inputs"]:
+            continue
+        first = sig["inputs"][0]
+        by_ref_mut = first.get("k") == "ref" and first["mut"] and tstr(first["t"]) == tstr(st)
+        by_value = tstr(first) == tstr(st)
+        if not (by_ref_mut or by_value):
+            continue
+        info = owners[st["def"]]
+        tail = st["def"].split("::")[-1]
+        if tail not in DROP_SPEC:
+            continue
+        root = ("arg", 1) if by_ref_mut else ("local", 1)
+        sb = ("field", root, (info["array"],)) if not info["array_is_ref"] else None
+        if sb is None:
+            continue
+        a_y = ctx.analysis_inl(cfg, b["key"], split=True)  # tree-shaped where loop-free: "read before" is dominance on each path
+        N = a_y.tenv.length([x for x in st["args"] if x.get("k") != "region"][-1])
+        S = a_y.tenv.size([x for x in st["args"] if x.get("k") != "region"][0])
+        reads = [c for c in a_y.calls if c.fn in ("core::ptr::read", "core::ptr::read_unaligned") and c.args[0][0] == "P" and c.args[0][1] == sb]
+        if not reads:
+            continue
+        foreign = [c for c in a_y.calls if cl_.classify(c, b) == "foreign" and not getattr(c, "no_effects", False)]
+        verdicts = {}
+        for r_ in reads:
+            off = r_.args[0][2]
+            bad = []
+            for f_ in foreign:
+                if f_ is r_ or not (a_y.dominates(r_.bb, f_.bb) and f_.bb != r_.bb):
+                    continue
+                if by_value:
+                    dropped, _ = unwind_drops(a_y, f_)
+                    if 1 not in dropped:
+                        continue  # the owner is not released on this call's unwind path (already forgotten / moved)
+                fld = owner_range(a_y, db, st["def"], info, f_.mem, root)
+                lo, hi = DROP_SPEC[tail](fld, N)
+                if lo is None or hi is None:
+                    bad.append("%s (claimed range unknown)" % f_.fn.split("::")[-1])
+                    continue
+                pf = a_y.poly_facts(f_.facts)
+                out_ = prove((">=", lo * S - off - S), pf) or prove((">=", off - hi * S), pf)
+                if not out_:
+                    bad.append("%s with the owner still claiming [%r, %r)" % (f_.fn.split("::")[-1], lo, hi))
+            site = (r_.at, a_y.blocks[r_.bb].get("split_of", r_.bb))
+            prev = verdicts.get(site, (True, [], off, r_.at))
+            verdicts[site] = (prev[0] and not bad, prev[1] + bad, off, r_.at)
+        for j, (site, (ok_, bad, off, at_)) in enumerate(sorted(verdicts.items(), key=lambda kv: repr(kv[0]))):
+            ctx.ob(rule, "%s#read#%d" % (b["key"], j), ok_,
+                   ("the element read out at byte %r is excluded from the owner's claimed range before every later call that can unwind" % (off,)) if ok_ else
+                   ("the element read out at byte %r is still claimed by the owner when a later call can unwind (dropped twice on unwind): %s" % (off, "; ".join(sorted(set(bad))))), at=at_, cfg=cfg)
+            n += 1
     return n
 
 
@@ -238,6 +277,7 @@ def check(ctx):
         n = check_drop_ranges(ctx, cfg)
         ctx.floor("C05.R", "Drop impls of tracked owners (%s)" % cfg, n, 4)
         m = check_exclude_before_destroy(ctx, cfg)
+        check_duplicate_window(ctx, cfg)
         # no site-count floor: nth / nth_back are optional overrides; the drop_in_place matcher is witnessed on this run by C05.R (one per mandatory Drop impl)
         ctx.extra.setdefault("C05.X sites", {})[cfg] = m
         check_by_value(ctx, cfg)
